@@ -17,6 +17,27 @@
 #include "vio.hpp"
 using namespace AIToolbox;
 
+
+// A user-defined POMDP model: probability queries only (IsModel but not IsModelEigen), wrapping dense tables.
+class GenericPOMDP {
+    public:
+        GenericPOMDP(const POMDP::Model<MDP::Model> & m) : m_(m) {}
+        size_t getS() const { return m_.getS(); }
+        size_t getA() const { return m_.getA(); }
+        size_t getO() const { return m_.getO(); }
+        double getDiscount() const { return m_.getDiscount(); }
+        bool isTerminal(size_t s) const { return m_.isTerminal(s); }
+        double getTransitionProbability(size_t s, size_t a, size_t s1) const { return m_.getTransitionProbability(s, a, s1); }
+        double getExpectedReward(size_t s, size_t a, size_t s1) const { return m_.getExpectedReward(s, a, s1); }
+        double getObservationProbability(size_t s1, size_t a, size_t o) const { return m_.getObservationProbability(s1, a, o); }
+        std::tuple<size_t, double> sampleSR(size_t s, size_t a) const { return m_.sampleSR(s, a); }
+        std::tuple<size_t, size_t, double> sampleSOR(size_t s, size_t a) const { return m_.sampleSOR(s, a); }
+    private:
+        const POMDP::Model<MDP::Model> & m_;
+};
+static_assert(POMDP::IsModel<GenericPOMDP>);
+static_assert(!POMDP::IsModelEigen<GenericPOMDP>);
+
 struct Tables { size_t S, A, O; double g; DumbMatrix3D T, R, Ob; };
 
 static Tables readPomdp(vio::Cursor & c) {
@@ -76,6 +97,7 @@ int main(int argc, char ** argv) {
             POMDP::Model<MDP::Model> dense(t.O, t.Ob, t.S, t.A, t.T, t.R, t.g);
             POMDP::ValueFunction vf;
             if (repr == "dense") vf = solve(alg, dense, h, nb, minR);
+            else if (repr == "generic") { GenericPOMDP g(dense); vf = solve(alg, g, h, nb, minR); }
             else { POMDP::SparseModel<MDP::SparseModel> sp(dense); vf = solve(alg, sp, h, nb, minR); }
             dumpVF(o, vf);
             // execute POMDP::Policy from each belief, following links
